@@ -1,6 +1,7 @@
 """Obligation bookkeeping, known-finding matching, VIOLATION lines, replay files, evidence."""
 import hashlib
 import json
+import re
 import os
 import sys
 import time
@@ -64,6 +65,10 @@ class Report:
         if not ok:
             self.rules[rid]["failed"] += 1
         d = {"rule": rid, "key": full, "ok": bool(ok), "what": what}
+        if not where and getattr(self, "where_by_opcode", None):
+            m = re.search(r"opc=(0x[0-9a-f]{2})", key)
+            if m:
+                where = self.where_by_opcode.get(int(m.group(1), 16))
         if where:
             d["where"] = where
         if expected is not None:
